@@ -146,6 +146,10 @@ pub fn run(tier: Tier, replay: Option<Value>) -> ! {
                 "vcat <<<\"$P\"",
                 "i=0; while [ $i -lt 40 ]; do printf '%s\\n' \"${P:0:2000}\"; i=$((i+1)); done",
                 "{ printf '%s' \"$P\" >&2; } 2>&1",
+                // nested: the inner substitution's data comes from an external program, the outer writer is a builtin
+                "echo \"$(vprod $((${#P})))\"",
+                "bg() { echo \"$(vprod ${#P})\"; }; bg",
+                "echo \"$(echo \"$(vprod ${#P})\")\"",
             ]
             .iter()
             .enumerate()
